@@ -46,7 +46,7 @@ fn dispatch(v: &Value) -> Value {
         "toposort_impl" | "sort_by_indices" | "topsort" => c11::handle(cmd, v),
         "c18" | "c18_from" | "c18_json" | "c18_cmp" => c18::handle(cmd, v),
         "ast" | "ast_type" => ast::handle(cmd, v),
-        "c05_parse_type" | "c05_format_type" => c05::handle(cmd, v),
+        "c05_parse_type" | "c05_format_type" | "c05_format_seq" => c05::handle(cmd, v),
         "derive_ast" | "derive_ast_file" => derive::handle(cmd, v),
         _ => json!({ "bad": format!("unknown cmd {cmd}") }),
     }
